@@ -216,6 +216,8 @@ fn execute(plan: &Value, w: &World, cfg: &Cfg, slot: usize) -> Outcome {
     let out_path = dir.join("out.json");
     let pre: Option<Vec<u8>> = match plan["output"].as_str() {
         Some("text") => Some(OLD_TEXT.to_vec()),
+        // longer than anything the endpoint serves: leftovers show if the file is not truncated
+        Some("long-text") => Some(OLD_TEXT.repeat(7000)),
         Some("old-schema") => Some(b"{\n  \"data\": {\n    \"__schema\": {\n      \"queryType\": { \"name\": \"OldQuery\" },\n      \"types\": []\n    }\n  }\n}\n".to_vec()),
         _ => None,
     };
@@ -587,6 +589,9 @@ fn absorb(a: &mut Agg, sub: u64, p: &Value, o: &Outcome) {
     if o.meaning_success && pre {
         bump(&mut a.probes, "success_overwriting_existing_output_file");
     }
+    if o.meaning_success && p["output"] == "long-text" {
+        bump(&mut a.probes, "success_overwriting_a_longer_existing_file");
+    }
     if headers.iter().any(|h| !plan::header_refused(h) && plan::header_expected(h).1.contains(':')) {
         bump(&mut a.probes, "header_value_containing_colon");
     }
@@ -678,8 +683,8 @@ fn main() {
         std::process::exit(1);
     }
 
-    let n = simcore::env_usize("VERIF_C20_RUNS", if tier == "thorough" { 40_000 } else { 1_500 });
-    let det_n = if cmd == "selftest" { n.max(100) } else if tier == "thorough" { 1_500 } else { 150 };
+    let n = simcore::env_usize("VERIF_C20_RUNS", if tier == "thorough" { 40_000 } else { 4_000 });
+    let det_n = if cmd == "selftest" { n.max(100) } else if tier == "thorough" { 1_500 } else { 200 };
     let agg = Mutex::new(Agg::default());
     let stop = AtomicBool::new(false);
     if cmd != "selftest" {
